@@ -24,6 +24,7 @@ type Reader struct {
 	appProps      *appPropertiesXML
 	sheets        []*Sheet
 	sheetRels     map[string]string // RID -> target path
+	gridCells     int               // cells of the grids allocated so far (all sheets)
 }
 
 // Open opens an XLSX file for reading.
@@ -243,7 +244,8 @@ func (r *Reader) parseWorksheets() error {
 	return nil
 }
 
-// maxGridCells bounds the number of cells of one worksheet grid (rows x columns).
+// maxGridCells bounds the number of cells of the worksheet grids (rows x columns) of
+// one workbook.
 const maxGridCells = 8 << 20
 
 // parseWorksheet parses a single worksheet.
@@ -298,6 +300,16 @@ func (r *Reader) parseWorksheet(data []byte, name string, index int) (*Sheet, er
 	// cell addressed XFD1048576 would ask for 17 thousand million cells.
 	if maxRow > 0 && maxCol+1 > maxGridCells/maxRow {
 		return nil, fmt.Errorf("worksheet %q is too large to load: %d rows x %d columns", name, maxRow, maxCol+1)
+	}
+
+	// The limit holds for the workbook as a whole: every <sheet> entry gets a grid
+	// of its own, entries may even name the same part, and one cell at XFD512 (50
+	// bytes) makes a grid of 8 Mi cells, 880 MB. Twenty such entries in a 1 KB
+	// workbook asked for 17 GB.
+	if cells := maxRow * (maxCol + 1); cells > maxGridCells-r.gridCells {
+		return nil, fmt.Errorf("worksheet %q does not fit the workbook's limit of %d cells", name, maxGridCells)
+	} else {
+		r.gridCells += cells
 	}
 
 	sheet.MaxRow = maxRow - 1 // Convert to 0-indexed
